@@ -266,8 +266,17 @@ func Harness_C02_UnifyChain() {
 	withInt := verifChoice("concrete", 4) // which variable (if any) is also related to int
 	res := newResolver()
 	n := 1 + verifChoice("nrel", 3)
+	// the concrete relation arrives before relation number intAt (n = after all of them):
+	// a class may be bound first and united with further variables later
+	intAt := verifChoice("intAt", n+1)
 	class := []int{0, 1, 2}
-	for k := 0; k < n; k++ {
+	for k := 0; k <= n; k++ {
+		if k == intAt && withInt < 3 {
+			updateResolver(res, unifyType(tv(withInt), New_FType_FInt))
+		}
+		if k == n {
+			break
+		}
 		p := pairs[idx[k]]
 		if verifChoice("flip"+itoaV(k), 2) == 1 {
 			p = [2]int{p[1], p[0]}
@@ -279,9 +288,6 @@ func Harness_C02_UnifyChain() {
 				class[i] = ca
 			}
 		}
-	}
-	if withInt < 3 {
-		updateResolver(res, unifyType(tv(withInt), New_FType_FInt))
 	}
 	for i := 0; i < 3; i++ {
 		for j := 0; j < 3; j++ {
